@@ -197,19 +197,59 @@ def run_programs(workdir, programs, shards=16):
                     f.write(sx_str(case) + "\n")
         files.append(path)
     import subprocess
-    procs = []
-    for s, path in enumerate(files):
+    from concurrent.futures import ThreadPoolExecutor
+
+    def run_shard(s):
+        """runs the harness over shard s.  If the PROCESS dies inside a library call (allocation failure, abort, stack overflow, a
+        signal) the transcript — flushed after every case — shows which case it was: that case gets the outcome ABORT, the rest
+        of its program is skipped (later cases may refer to its result) and a fresh process resumes with the next program."""
+        lines = [l for l in open(files[s]).read().split("\n") if l.strip()]
+        bnds, n = [], 0
+        for prog in programs[s::shards]:
+            bnds.append((n, n + len(prog)))
+            n += len(prog)
         tpath = os.path.join(workdir, "tr_%d.txt" % s)
-        procs.append((subprocess.Popen([HARNESS_BIN_IN_USE[0], path], stdout=open(tpath, "w"), stderr=subprocess.PIPE), tpath))
-    for p, tpath in procs:
-        try:
-            _, err = p.communicate(timeout=STEP_TIMEOUT)
-        except subprocess.TimeoutExpired:
-            for q, _ in procs:
-                q.kill()
-            raise RuntimeError("harness did not finish within %d s on %s" % (STEP_TIMEOUT, tpath))
-        if p.returncode != 0:
-            raise RuntimeError("harness crashed (exit %s) on %s: %s" % (p.returncode, tpath, err.decode()[-2000:]))
+        out_lines, crashes, path = [], 0, files[s]
+        while True:
+            part_path = os.path.join(workdir, "tr_%d.part%d" % (s, crashes))
+            p = subprocess.Popen([HARNESS_BIN_IN_USE[0], path], stdout=open(part_path, "w"), stderr=subprocess.PIPE)
+            try:
+                _, err = p.communicate(timeout=STEP_TIMEOUT)
+            except subprocess.TimeoutExpired:
+                p.kill()
+                raise RuntimeError("harness did not finish within %d s on %s" % (STEP_TIMEOUT, path))
+            part = [l for l in open(part_path).read().split("\n") if l.strip()]
+            if p.returncode != 0 and part and not part[-1].endswith(")"):
+                part = part[:-1]                                  # a partially written last line
+            out_lines += part
+            if p.returncode == 0:
+                break
+            if p.returncode == 3:
+                raise RuntimeError("harness does not know an operation (exit 3) on %s: %s" % (path, err.decode()[-2000:]))
+            crashes += 1
+            k = len(part)
+            if crashes > 25 or k >= len(lines):
+                raise RuntimeError("harness crashed (exit %s, crash %d) on %s: %s" % (p.returncode, crashes, path, err.decode()[-2000:]))
+            lo, hi = next((a, b) for a, b in bnds if a <= k < b)
+            c = sx_parse(lines[k])
+            out_lines.append(sx_str([c[0], c[1:], "ABORT"]))
+            for l in lines[k + 1:hi]:
+                c = sx_parse(l)
+                out_lines.append(sx_str([c[0], c[1:], "SKIP"]))
+            lines = lines[hi:]
+            bnds = [(a - hi, b - hi) for a, b in bnds if a >= hi]
+            if not lines:
+                break
+            path = os.path.join(workdir, "in_%d_r%d.txt" % (s, crashes))
+            with open(path, "w") as f:
+                f.write("\n".join(lines) + "\n")
+        with open(tpath, "w") as f:
+            f.write("".join(l + "\n" for l in out_lines))
+        return tpath
+
+    with ThreadPoolExecutor(max_workers=shards) as ex:
+        tpaths = list(ex.map(run_shard, range(shards)))
+    procs = [(None, tp) for tp in tpaths]
     mprocs = []
     for s, (p, tpath) in enumerate(procs):
         mpath = os.path.join(workdir, "mo_%d.txt" % s)
@@ -586,6 +626,13 @@ def violation_hang(pid, st):
     from props.base import violation
     return violation(pid, st, "the operation did not return within the time limit of the harness (VERIF_HANG_SECS, default 120 s): non-termination",
                      oracle={"model_result": sx_str(st[3])[:300]}, confirmed=True, relation="every operation returns")
+
+
+def violation_abort(pid, st):
+    from props.base import violation
+    return violation(pid, st, "the library took the whole process down inside this call (allocation failure / abort / stack overflow / signal): "
+                     "no property tolerates that on inputs inside its quantifier", oracle={"model_result": sx_str(st[3])[:300]}, confirmed=True,
+                     relation="every operation returns or panics")
 
 
 def finish(v, coq, t0, rule, exhaustive=False, extra=None, cross=(0, 0), engines=(0, 0)):
